@@ -101,18 +101,162 @@ static void write_file(const char *path, const char *data, size_t len)
     fclose(f);
 }
 
+/* ---- symbolic routing tags: @T<cid>#<k>|<fallback>@ (rules: vlib/tagres.py) ---- */
+#define TR_MAX 512
+static struct { int cid, k; char tag[128]; } tr_tags[TR_MAX];
+static int tr_ntags;
+static struct { int cid, n; } tr_inst[TR_MAX];
+static int tr_ninst;
+static char tr_pending[1 << 16];
+static size_t tr_plen;
+
+static int tr_wrap32(long long v) { return (int)(unsigned int)(unsigned long long)v; }
+
+static int tr_instances(int cid)
+{
+    int i;
+    for (i = 0; i < tr_ninst; i++) if (tr_inst[i].cid == cid) return tr_inst[i].n;
+    return 0;
+}
+
+static const char *tr_lookup(int cid, int k)
+{
+    int i;
+    for (i = 0; i < tr_ntags; i++) if (tr_tags[i].cid == cid && tr_tags[i].k == k) return tr_tags[i].tag;
+    return NULL;
+}
+
+/* decimal id: optional '-', 1..10 digits, nothing else */
+static int tr_decimal(const char *s, size_t n, long long *v)
+{
+    size_t i = 0;
+    long long x = 0;
+    int neg = 0;
+    if (n && s[0] == '-') { neg = 1; i = 1; }
+    if (n - i < 1 || n - i > 10) return 0;
+    for (; i < n; i++) {
+        if (s[i] < '0' || s[i] > '9') return 0;
+        x = x * 10 + (s[i] - '0');
+    }
+    *v = neg ? -x : x;
+    return 1;
+}
+
+static char *tr_resolve(const char *d, size_t len, size_t *outlen)
+{
+    char *o = malloc(len * 2 + 256);
+    size_t cap = len * 2 + 256, ol = 0, i = 0;
+    while (i < len) {
+        if (d[i] == '@' && i + 1 < len && d[i + 1] == 'T') {
+            size_t p = i + 2, q, idlen, klen;
+            long long cid, k;
+            while (p < len && (d[p] == '-' || (d[p] >= '0' && d[p] <= '9'))) p++;
+            idlen = p - (i + 2);
+            if (p < len && d[p] == '#' && tr_decimal(d + i + 2, idlen, &cid)) {
+                q = p + 1;
+                while (q < len && d[q] >= '0' && d[q] <= '9') q++;
+                klen = q - (p + 1);
+                if (klen >= 1 && klen <= 6 && q < len && d[q] == '|' && tr_decimal(d + p + 1, klen, &k)) {
+                    size_t fb = q + 1, e = fb;
+                    while (e < len && d[e] != '@' && d[e] != '\n') e++;
+                    if (e < len && d[e] == '@') {
+                        const char *t = tr_lookup(tr_wrap32(cid), (int)k);
+                        size_t tl = t ? strlen(t) : e - fb;
+                        if (ol + tl + 1 > cap) { cap = (ol + tl) * 2 + 256; o = realloc(o, cap); }
+                        memcpy(o + ol, t ? t : d + fb, tl);
+                        ol += tl;
+                        i = e + 1;
+                        continue;
+                    }
+                }
+            }
+        }
+        if (ol + 2 > cap) { cap *= 2; o = realloc(o, cap); }
+        o[ol++] = d[i++];
+    }
+    *outlen = ol;
+    return o;
+}
+
+static void tr_line(const char *l, size_t n)
+{
+    const char *tok[8];
+    size_t tl[8], i = 0;
+    int nt = 0, j;
+    long long cid;
+    while (i < n && nt < 8) {
+        while (i < n && l[i] == ' ') i++;
+        if (i >= n) break;
+        tok[nt] = l + i;
+        while (i < n && l[i] != ' ') i++;
+        tl[nt] = (size_t)(l + i - tok[nt]);
+        nt++;
+    }
+    if (nt < 6 || !tr_decimal(tok[0], tl[0], &cid) || tok[1][0] != 'C') return;
+    for (j = 2; j < 6; j++) if (tok[j][0] == ':') return;
+    for (j = 0; j < tr_ninst; j++) if (tr_inst[j].cid == tr_wrap32(cid)) { tr_inst[j].n++; return; }
+    if (tr_ninst < TR_MAX) { tr_inst[tr_ninst].cid = tr_wrap32(cid); tr_inst[tr_ninst].n = 1; tr_ninst++; }
+}
+
+static void tr_fed(const char *d, size_t len)
+{
+    size_t i;
+    for (i = 0; i < len; i++) {
+        if (d[i] == '\n') { tr_line(tr_pending, tr_plen); tr_plen = 0; }
+        else if (tr_plen < sizeof(tr_pending)) tr_pending[tr_plen++] = d[i];
+    }
+}
+
+static void tr_out(const char *d, size_t len)
+{
+    size_t i = 0;
+    while (i < len) {
+        size_t e = i, p, h0, u;
+        while (e < len && d[e] != '\n') e++;
+        /* X <service> <hexid 1..8>_<rest> */
+        if (e - i > 4 && d[i] == 'X' && d[i + 1] == ' ' && d[i + 2] != ' ') {
+            p = i + 2;
+            while (p < e && d[p] != ' ') p++;
+            h0 = ++p;
+            while (p < e && ((d[p] >= '0' && d[p] <= '9') || (d[p] >= 'a' && d[p] <= 'f') || (d[p] >= 'A' && d[p] <= 'F'))) p++;
+            if (h0 <= e && p > h0 && p - h0 <= 8 && p < e && d[p] == '_') {
+                char hex[16];
+                int cid, k;
+                memcpy(hex, d + h0, p - h0);
+                hex[p - h0] = 0;
+                cid = tr_wrap32((long long)strtoull(hex, NULL, 16));
+                u = p;
+                while (u < e && d[u] != ' ') u++;
+                k = tr_instances(cid);
+                if (!tr_lookup(cid, k) && tr_ntags < TR_MAX && u - h0 < sizeof(tr_tags[0].tag)) {
+                    tr_tags[tr_ntags].cid = cid; tr_tags[tr_ntags].k = k;
+                    memcpy(tr_tags[tr_ntags].tag, d + h0, u - h0);
+                    tr_tags[tr_ntags].tag[u - h0] = 0;
+                    tr_ntags++;
+                }
+            }
+        }
+        i = e + 1;
+    }
+}
+
 static void emit_out(void)
 {
     static char buf[1 << 16];
-    int first = 1;
+    char *all = NULL;
+    size_t al = 0, ac = 0;
     fflush(stdout);
     fprintf(rec, "out ");
     for (;;) {
         ssize_t r = read(out_r, buf, sizeof(buf));
         if (r <= 0) break;
-        puthex(rec, buf, (size_t)r), first = 0;
+        if (al + (size_t)r > ac) { ac = (al + (size_t)r) * 2; all = realloc(all, ac); }
+        memcpy(all + al, buf, (size_t)r);
+        al += (size_t)r;
     }
-    if (first) fputc('=', rec);
+    if (al) { puthex(rec, all, al); tr_out(all, al); }
+    else fputc('=', rec);
+    free(all);
 }
 
 static void turn_loop_until_drained(void)
@@ -188,8 +332,11 @@ static void run_case(char **lines, int n)
         } else if (!started) {
             fprintf(rec, "bad-op\n");
         } else if (!strcmp(fv[0], "in") && nf >= 2) {
-            size_t len, off = 0;
-            char *data = unhex(fv[1], &len);
+            size_t len, off = 0, rawlen;
+            char *raw = unhex(fv[1], &rawlen);
+            char *data = tr_resolve(raw ? raw : "", raw ? rawlen : 0, &len);
+            free(raw);
+            tr_fed(data, len);
             fprintf(rec, "");
             /* one write per op unless the chunk exceeds what the pipe takes at once */
             while (off < len) {
